@@ -171,6 +171,12 @@ def gen_dag(rng, cyclic=False, with_pull=True, shared_pull=False, late_start=Tru
                 allow_topull=(kinds[k] == "T"),    # see DESIGN: DelayToPull on an input of a pull-based component is
                                                    # shared by all readers of that component
             )
+            if kinds[k] == "P":
+                # a pull-based component may be asked twice for the same time (two links of one consumer): Avg/SumOverTime
+                # on its inputs would see a repeated request time (zero-length interval, outside C12's p0 < p1)
+                for a in chain:
+                    if a[0] == "buf" and a[1] in ("avg", "sum"):
+                        a[1] = rng.choice(["next", "prev", "linear", "step"])
             if late:
                 # a delay adapter upstream of a buffering adapter asks a late-starting producer for its own start
                 # time at the composition start (observation recorded in DESIGN, outside the properties' domain)
